@@ -667,26 +667,28 @@ example : uniformPi (Fin (2 + 1))
   norm_num [Matrix.cons_val_zero, Matrix.cons_val_one]
 
 /-
-  STATED, NOT PROVED:
+  FORMERLY `STATED, NOT PROVED` — all three items are now theorems, for all sizes, in
+  `Props/C17/MeasureMore.lean` (namespace `Qec.C17.MeasureMore`, helpers `Lemmas/C17More.lean`):
 
-  (S1) stream-level formulation.  With `μ∞` the infinite product of `uniform01` on `ℕ → ℝ`
-       (`MeasureTheory.Measure.infinitePi`, not imported here to keep the build small), for every
-       position `pos` the push-forward of `μ∞` under
-         `s ↦ (runSteps n m (cdfR d) q [1 - q, 1] s T pos).1`
-       (real copy of `runSteps`) is the T-fold product of
-         `(Measure.pi fun _ : Fin n => pauliLaw d).prod (Measure.pi fun _ : Fin m => flipLaw q)`,
-       and consecutive runs (`runMany`) are independent.  What IS proved: the finite-dimensional
-       version — `run_event_iff` / `run_event_iff_zero` show the run event only constrains the
-       `T·(n+m)` (resp. `T·n`) distinct positions `pos + t·L + k`, and `run_law` / `run_law_zero`
-       give its probability under the product law of those coordinates; the marginal of `μ∞` on any
-       finite set of distinct coordinates is that product law (definition of the infinite product).
+  (S1) stream-level formulation.  With `uniformStream` the infinite product of `uniform01` on
+       `ℕ → ℝ` (`MeasureTheory.Measure.infinitePi`), for every position `pos` the push-forward of
+       `uniformStream` under `streamRun T n m d q pos` (the real copy of
+       `s ↦ (runSteps n m cdfE q cdfM s T pos).1`, equal to the executable run on every rational
+       stream: `streamRun_ratCast`) is the T-fold product of
+         `stepLaw n m d q = (Measure.pi fun _ : Fin n => pauliLaw d).prod (Measure.pi fun _ : Fin m => flipLaw q)`
+       — PROVED: `stream_run_law`; consecutive runs (`runMany`) are independent — PROVED:
+       `stream_runs_law`; q = 0 — PROVED: `stream_run_law_zero` (+ `streamRunZero_ratCast`).
+       Key lemma: `Qec.C17More.uniformStream_map_comp` (finitely many distinct stream positions are
+       independent uniforms).
 
-  (S2) `run_law` as an equality of measures on `Fin T → (Fin n → P1) × (Fin m → Bool)`
-       (the single-step version is `step_law_measure`).
+  (S2) `run_law` as an equality of measures on `Fin T → (Fin n → P1) × (Fin m → Bool)` — PROVED:
+       `run_law_measure` (also `run_step_marginal`, `run_law_measure_index`).
 
-  (S3) total-variation bound between the grid law and the continuous law for a whole n-qubit error:
-       `|#{grid points of [0,1)^n mapped to e} / N^n − ∏ i, d (e i)| ≤ n / N`
-       (per letter it is `pauli_law_grid`; independence on the grid is exact, `generate_law_grid`).
+  (S3) bound between the grid law and the continuous law for a whole n-qubit error:
+       `|#{grid points of [0,1)^n mapped to e} / N^n − ∏ i, d (e i)| ≤ n / N` — PROVED:
+       `generate_law_grid_error` (strict: `generate_law_grid_error_lt`); summed over all errors
+       (ℓ¹ = twice the total variation) `≤ 4 n / N`: `generate_law_grid_l1`; one whole FTP step
+       (error and flips) `≤ (n + m) / N`: `step_law_grid_error`.
 
   TRUSTED, NOT A STATEMENT ABOUT THIS CODE: PCG64's doubles are uniform on the grid and independent;
   numpy's `Generator.choice` is the inverse-CDF map of `rng.random` (re-checked by the harness).
